@@ -407,6 +407,7 @@ prop("C19", "c19",
       dict(run="^TestMalformedObjectsOfABucketLeaveTheLoadedRuleSetsInEffect$", quick=400, thorough=6000, shards_thorough=2),
       dict(run="^TestRuleSetFileVanishingWhileItIsReadIsNotFatal$", quick=300, thorough=3000, shards_thorough=1),
       dict(run="^TestRedisCredentialsFileReloadsSurviveAnyContent$", quick=3000, thorough=60000, shards_thorough=2),
+      dict(run="^TestOddEntriesOfTheWatchedDirectoryAreNotFatal$", quick=400, thorough=8000, shards_thorough=2),
       dict(run="^TestTokenEndpointAnswersToTheRuleProvider$", quick=1200, thorough=3000, shards_thorough=2),
       dict(run="^FuzzRuleSetBytes$", fuzz=True, quick=1, thorough=1, shards_thorough=1, fuzztime_thorough=240, fuzz_workers=6),
       dict(run="^FuzzKeyStoreBytes$", fuzz=True, quick=1, thorough=1, shards_thorough=1, fuzztime_thorough=240, fuzz_workers=4),
@@ -453,37 +454,39 @@ ADDED = {
     "C03": "Also: method lists which leave no method (must be refused or match nothing), sub-delims and marker-like texts as segments, encoded slashes in "
            "both hex cases within one value, the bare * wildcard (not exposed).",
     "C04": "Also: jwt / oauth2_introspection authenticators with an issuer-templated metadata endpoint, tokens without issuer or key id, credentials with white "
-           "space inside, algorithm confusion tokens, the scheme in other cases.",
+           "space inside, algorithm confusion tokens, the scheme in other cases. Bearer tokens travelling as query parameter (also with the name of the parameter spelled with an escape sequence) and as body parameter.",
     "C05": "Also: scope matching strategies with near-miss scopes, issuer-templated key set endpoints, issuers which read almost like a trusted one, nbf / "
            "iat / exp beyond what 64 bit seconds or time.Time represent; the reference verifies over the canonical encoding of header and payload.",
+    "C02": "Also: the second repository may have been in use and emptied before the rule sets arrive.",
+    "C07": "Also: versions reported as update although nothing of the source is loaded.",
     "C06": "Also: a concurrent unit - the histories of three sources with disjoint expressions applied at the same time must end like a fresh load.",
     "C08": "Also: combined escapes, characters Go re-escapes ({ | ^) and raw bytes beyond ASCII, mixed settings with path_params, a second encoded slash in "
-           "the other hex case. Rules which rewrite what is forwarded (scheme only, added path prefix), encoded slash at the very end of the path.",
+           "the other hex case. Rules which rewrite what is forwarded (scheme only, added path prefix), encoded slash at the very end of the path. Encoded percent signs in front of hex digits.",
     "C09": "Also: extension methods, request-target forms of X-Forwarded-Uri, scoped IPv6 peers with link-local trusted entries, Forwarded elements without "
-           "for / with For / on two lines, an empty first header line, a Host header with ; , = (nothing but the peer may be named as client address upstream). The same address twice in a row in the chain of hops, and as last hop the peer itself.",
+           "for / with For / on two lines, an empty first header line, a Host header with ; , = (nothing but the peer may be named as client address upstream). The same address twice in a row in the chain of hops, and as last hop the peer itself. Relatives of the forwarded headers which heimdall does not document (X-Forwarded-Scheme, X-Real-Ip, X-Original-Url, ...) change nothing for anybody.",
     "C10": "Also: rule-level TTLs across rules (what a rule takes from the cache is not older than its own TTL), token lifetimes of zero and less, invalid "
-           "Expires values, custom claims naming exp. The default lifetime of an endpoint's HTTP cache across two catalogue mechanisms calling the same url.",
+           "Expires values, custom claims naming exp. The default lifetime of an endpoint's HTTP cache across two catalogue mechanisms calling the same url. Cache-Control directives on several header lines, Last-Modified next to explicit lifetimes, Age values up to beyond what a duration holds.",
     "C11": "Also: the endpoint-level HTTP cache (POST, and GET with Vary), name lists shifted against the payload, overridden names of forwarded headers / "
            "cookies, outputs of earlier steps in endpoint templates and in jwt claims (token reuse), a second catalogue entry validating the session lifetime, a key "
-           "store replaced under the same key id between the executions, jwt authenticators with different trust stores. Two catalogue entries whose endpoint settings are shifted across a boundary (header name/value, basic auth user/password, api key name/value), a second generic authenticator sending another payload, answers in YAML with expressions calculating with a number, subjects with the same id whose attributes differ in the ends of nested elements or the type of a value.",
-    "C12": "Also: panicking mechanisms, more foreign causes (context.Canceled, url.Error wrapping it, net / os errors, JSON syntax error, gRPC status). Chains of three with a nested chain (with and without context) in the middle and the kind at the end.",
+           "store replaced under the same key id between the executions, jwt authenticators with different trust stores. Two catalogue entries whose endpoint settings are shifted across a boundary (header name/value, basic auth user/password, api key name/value), a second generic authenticator sending another payload, answers in YAML with expressions calculating with a number, subjects with the same id whose attributes differ in the ends of nested elements or the type of a value. Vary on several header lines with Authorization first; url and Authorization header of an endpoint shifted across their boundary with only the HTTP cache in use.",
+    "C12": "Also: panicking mechanisms, more foreign causes (context.Canceled, url.Error wrapping it, net / os errors, JSON syntax error, gRPC status). Chains of three with a nested chain (with and without context) in the middle and the kind at the end. Relative references as redirect targets.",
     "C13": "Also: the check request as Envoy's API describes it (request target incl. query as path, pseudo headers), the decision service asked the way a gateway "
            "does (X-Forwarded-* from a trusted proxy), extension methods, chunked bodies, duplicate / quoted cookies, content type spellings, raw path and URL "
            "string and Host header in the view, empty-valued and odd pipeline headers / cookies, characters not valid in an escaped path. Queries holding a question mark, a slash, semicolons, empty members.",
     "C01": "Also: steps failing with an abandoned or timed out call as cause (context.Canceled / DeadlineExceeded inside and outside of a heimdall error).",
     "C17": "Also: a unit in which later pipeline steps change the subject they were given (dict functions of the template engine): subjects created afterwards by "
-           "the catalogue entry, its variants and other authenticators are those of a world in which nobody did.",
-    "C14": "Also: generated on_error pipelines with repeated handlers and overrides, overrides which are not a mapping.",
+           "the catalogue entry, its variants and other authenticators are those of a world in which nobody did. Pairs of overrides which read the same once quotes and the ends of elements are dropped.",
+    "C14": "Also: generated on_error pipelines with repeated handlers and overrides, overrides which are not a mapping. A rule for a deeper path loaded before the rule under test.",
     "C15": "Also: allow_encoded_slashes on (listed finding), add_path_prefix with characters not valid in a path, extension and mixed-case methods, IPv6 peers in "
-           "Forwarded (RFC 7239 form), unparsable queries, an empty pipeline header. A path which is nothing but the stripped prefix, X-Forwarded-Host / -Proto produced by the pipeline against the same headers of a trusted client.",
+           "Forwarded (RFC 7239 form), unparsable queries, an empty pipeline header. A path which is nothing but the stripped prefix, X-Forwarded-Host / -Proto produced by the pipeline against the same headers of a trusted client. A Forwarded header on two lines.",
     "C16": "Also: every signer of a multi-signer setup, tokens handed out after reloads, a token cache with a rule using the finalizer as in the catalogue, empty subject ids. A certificate of the active key which runs out while heimdall serves requests (unit with real waiting).",
     "C18": "Also: the real inotify watcher following one file (rewrites, atomic replacements, ConfigMap layout, removal and re-creation), an S3 compatible server for "
            "the documented single-object URL, an object replaced between the requests of one poll, content type spellings, empty content as line break / comments, "
-           "Kubernetes tombstones / status values / re-created objects, per-object independence in buckets. Endpoint urls which are not in the spelling a url library writes them (non-ASCII, braces, lower-case escapes).",
+           "Kubernetes tombstones / status values / re-created objects, per-object independence in buckets. Endpoint urls which are not in the spelling a url library writes them (non-ASCII, braces, lower-case escapes). A ConfigMap link replaced in two steps (removed, then created again).",
     "C19": "Also: rule sets with references to the environment (shell parameter expansion forms), a rule set file vanishing while it is read (named pipe), malformed "
            "objects of a bucket, key stores with usable keys followed by an unusable one, P-521 keys, encrypted keys with DER-aware edits, cyclic issuers, the token "
-           "issued after a reload attempt must verify with the published key set, which is unchanged after a refused reload; native fuzz targets. The credentials file of the redis cache reloaded with truncated, null-document and hostile contents.",
-    "C20": "Also: relative redirect targets, YAML-lookalike strings, a conflicting assignment by a variable which is set and empty. List indices written with leading zeros.",
+           "issued after a reload attempt must verify with the published key set, which is unchanged after a refused reload; native fuzz targets. The credentials file of the redis cache reloaded with truncated, null-document and hostile contents. Entries of the watched directory which cannot be stat'ed or read (links in cycles, through regular files, to over-long names, directories, unreadable files).",
+    "C20": "Also: relative redirect targets, YAML-lookalike strings, a conflicting assignment by a variable which is set and empty. List indices written with leading zeros. Prefixes of the variables in lower or mixed case and without trailing separator.",
 }
 
 for _pid, _txt in ADDED.items():
